@@ -95,6 +95,10 @@ func vMoreSpecific(a, b []vTok) bool {
 // registration order.
 func H_C03(tbl, router, perm int) {
 	stage := 0
+	if perm >= 1000 { // header stage: concrete sample URLs, symbolic Content-Type and Accept
+		perm -= 1000
+		stage = 1
+	}
 	if perm >= 100 { // thorough bounds
 		perm -= 100
 		stage = 10
@@ -104,7 +108,7 @@ func H_C03(tbl, router, perm int) {
 	c1 := h1.buildOrdered(vRouter(router), 0)
 	h2 := &vH{table: t, flat: h1.flat, cond: h1.cond}
 	c2 := h2.buildOrdered(vRouter(router), perm)
-	q := vSymRequest(stage, 12, 3, nil)
+	q := vSymRequest(stage, 12, 3, vSamplePaths(h1.flat))
 	vKnownRouting(q, router)
 	o1 := h1.run(c1, q)
 	o2 := h2.run(c2, q)
